@@ -135,6 +135,9 @@ pub const DT_POOL: &[&str] = &[
 
 pub const TAG_POOL: &[&str] = &[
     "en", "EN", "en-US", "en-us", "fr-BE", "zh-Hant-TW", "x-foo", "de-1996", "En-gb",
+    // singleton subtags (extensions, private use), grandfathered, long and numeric subtags
+    "de-x-formal", "en-u-ca-gregory", "zh-t-en", "sr-Latn-RS-a-bcd", "en-a-b1", "i-klingon",
+    "es-419", "de-CH-1901", "a", "q-1", "abcdefgh-abcdefgh",
 ];
 
 pub const VAR_POOL: &[&str] = &["x", "y", "v1", "_z", "0"];
@@ -339,7 +342,13 @@ pub fn draw_literal(t: &mut Tape, p: &Profile) -> MTerm {
     match t.below(3) {
         0 => MTerm::Lit(lex, XSD_STRING.to_string()),
         1 => MTerm::Lit(lex, DT_POOL[t.below(DT_POOL.len())].to_string()),
-        _ => MTerm::Lang(lex, TAG_POOL[t.below(TAG_POOL.len())].to_string()),
+        _ => {
+            // terms are built through the validating constructors: keep only tags they accept
+            // (C08 feeds the same pool to the parsers as raw text, unfiltered)
+            let tag = TAG_POOL[t.below(TAG_POOL.len())];
+            let tag = if sophia_api::term::LanguageTag::new(tag).is_ok() { tag } else { "en" };
+            MTerm::Lang(lex, tag.to_string())
+        }
     }
 }
 
